@@ -809,6 +809,11 @@ def check_skymask(ctx, repo):
                 bt = src(expand(b_, fa, depth=3, calls=True)) if not isinstance(b_, ast.Constant) else src(b_)
                 if 'itemsize' in bt or 'iinfo' in bt or 'nbytes' in bt:
                     return then(a, 'width')
+                cb = b_.args[0] if isinstance(b_, ast.Call) and call_name(b_) in ('uint64', 'int64') and len(b_.args) == 1 else b_
+                cv = try_fold(cb)
+                if isinstance(cv, int) and not isinstance(cv, bool) and (cv >> 27) & 3 == 3 and mask_chains(a, depth + 1) != [None]:
+                    # a fixed constant that keeps bits 27 and 28 removes no extension bit the flag tests look at
+                    return then(a, 'keep')
             return [None]
         return [None]
     for n in walk_local(f.node):
